@@ -34,6 +34,10 @@ type c03Scenario struct {
 	// timeout, and every in-flight request has its headers already and streams its body until its
 	// natural finish: the drain timeout, not the target timeout, is what such a request is owed.
 	ShortTT bool `json:"short_target_timeout"`
+	// RolloutStopped (pause/stop of a service with rollout targets): `rollout stop` is issued a
+	// millisecond before the command, while requests are in flight on the rollout targets: they are
+	// still the service's targets and the command drains them like the others.
+	RolloutStopped bool `json:"rollout_stopped_first,omitempty"`
 }
 
 func c03Gen(rng *rand.Rand, idx int) c03Scenario {
@@ -64,7 +68,11 @@ func c03Gen(rng *rand.Rand, idx int) c03Scenario {
 			sc.DrainTO = 1500 * time.Millisecond
 		}
 	}
+	sc.RolloutStopped = sc.Rollout && (sc.Cmd == "pause" || sc.Cmd == "stop") && idx%2 == 1
 	n := rng.IntN(7)
+	if sc.RolloutStopped && n < 2 {
+		n = 2
+	}
 	if sc.ShortTT {
 		n = 2 + n%4
 	}
@@ -105,7 +113,7 @@ func (sc c03Scenario) class() string {
 	if len(ks) == 0 && !sc.Placed {
 		return ""
 	}
-	return fmt.Sprintf("%s|nt%d|ro%v|drain%v|%s|placed=%v|sick=%v|buf=%s|stt=%v", sc.Cmd, sc.NT, sc.Rollout, sc.DrainTO, strings.Join(ks, ","), sc.Placed, sc.Sick, sc.Buf, sc.ShortTT)
+	return fmt.Sprintf("%s|nt%d|ro%v|drain%v|%s|placed=%v|sick=%v|buf=%s|stt=%v|rs=%v", sc.Cmd, sc.NT, sc.Rollout, sc.DrainTO, strings.Join(ks, ","), sc.Placed, sc.Sick, sc.Buf, sc.ShortTT, sc.RolloutStopped)
 }
 
 // c03Span: requests held by a pause (and requests stalled between route lookup and claim) while
@@ -526,6 +534,9 @@ func c03Run(t *testing.T, run *Run, sc c03Scenario) {
 		w.GoReq(tCmd+off+OffArrival, mkReq(fmt.Sprintf("p%d", i), useCookie))
 	}
 	var cmd, resume *CmdRec
+	if sc.RolloutStopped {
+		w.At(tCmd-time.Millisecond, func() { w.RolloutStop(svc) })
+	}
 	w.At(tCmd, func() {
 		switch sc.Cmd {
 		case "deploy":
